@@ -233,3 +233,40 @@ func VerifH_C15_oversize_insert() {
 	vrt.Assert(verifBytesEq(got, d), "heap-persist-bytes")
 	vrt.Covered("oversize-done")
 }
+
+// objects at the largest managed size (and one byte below) are accepted and come back intact, in memory and after write/load
+func VerifH_C15_max_size_insert() {
+	vrt.LoopBound(300000)
+	blockSize := uint64(128 * 1024)
+	fh := NewWritableFractalHeap(blockSize)
+	small := vrt.Bytes(3)
+	idSmall, err := fh.InsertObject(small)
+	vrt.AssertNoErr(err, "heap-insert-fitting-ok")
+	n := int(fh.Header.MaxManagedObjectSize) - 1 + vrt.Choice(2)
+	big := make([]byte, n)
+	for i := range big {
+		big[i] = byte(i*13 + 1)
+	}
+	big[0], big[n-1] = vrt.U8(), vrt.U8()
+	idBig, err := fh.InsertObject(big)
+	vrt.AssertNoErr(err, "heap-insert-fitting-ok")
+	if err != nil {
+		return
+	}
+	got, err := fh.GetObject(idBig)
+	vrt.AssertNoErr(err, "heap-get-live-ok")
+	vrt.Assert(verifBytesEq(got, big), "heap-get-returns-stored-bytes")
+	sb := &core.Superblock{Version: 2, OffsetSize: 8, LengthSize: 8, Endianness: binary.LittleEndian}
+	mem := &verifMem{next: 64}
+	addr, err := fh.WriteToFile(mem, mem, sb)
+	vrt.AssertNoErr(err, "heap-write-ok")
+	back := NewWritableFractalHeap(blockSize)
+	vrt.AssertNoErr(back.LoadFromFile(mem, addr, sb), "heap-load-ok")
+	got, err = back.GetObject(idBig)
+	vrt.AssertNoErr(err, "heap-persist-get-ok")
+	vrt.Assert(verifBytesEq(got, big), "heap-persist-bytes")
+	got, err = back.GetObject(idSmall)
+	vrt.AssertNoErr(err, "heap-persist-get-ok")
+	vrt.Assert(verifBytesEq(got, small), "heap-persist-bytes")
+	vrt.Covered("max-size-done")
+}
